@@ -1,4 +1,10 @@
 """C07 - round trips preserve value interpretation where the format carries it."""
+import contextlib
+import copy
+import decimal
+import io
+import json
+
 from lib import roundtrip as R
 from props import c06
 
@@ -11,27 +17,455 @@ RULE = ("case 'frame' = (format, generated matrix as in C06 but with factors/off
         "equals the format's default and the reader's defaults decide (c06.plain_signals); one frame): the re-read frame is compared with the original on every feature "
         "the format's documented feature table lists (length, type, factor/offset as exact decimals, value tables, unit, multiplexer "
         "role and selector values, senders, receivers). case 'sig' = signedness / float type per signal through the type-word "
-        "kernels. Non-trivial = distinct case whose frame has a non-integer factor, a value table or a multiplexer.")
+        "kernels. A further stream (one matrix in four, key 'hist') does not hand the writer a freshly built matrix but one with a "
+        "history of calls of the public API: its origin is a hand-made matrix with Frame.update_receiver() called for every frame, a "
+        "hand-made matrix on which nobody called it (frame.receivers empty), the matrix a loader returns (the DBC reader, or the reader "
+        "of the format under test: the second round trip), and then 1..4 editing steps: CanMatrix.add_frame_receiver / "
+        "add_signal_receiver / del_signal_receiver, Signal.add_receiver / del_receiver, CanMatrix.add_frame_transmitter / "
+        "del_frame_transmitter, Frame.add_transmitter / del_transmitter, rename_ecu, del_ecu, add_ecu, update_ecu_list, "
+        "Frame.update_receiver, Frame.add_signal after the receivers of the frame were collected, assignment of factor / offset / unit, "
+        "Signal.add_values, copy.deepcopy, and an export that comes before the one under test (same format, DBC or JSON).  Many of these "
+        "leave the redundant parts of the matrix (frame.receivers, the ECU list, limits) behind the signals, which is legitimate: the "
+        "original is described after the last step and before the export, the features compared are the same. "
+        "Non-trivial = distinct case whose frame has a non-integer factor, a value table or a multiplexer.")
 PARTIAL = c06.PARTIAL + ["number rendering/parsing is proved separately (Props/Num.lean); which renderer each writer calls is tied by this check only"]
-ASSUMPTIONS = c06.ASSUMPTIONS + ["feature table per format taken from docs/formats.rst and the property text (Driver/C06.lean `carries`)"]
+ASSUMPTIONS = c06.ASSUMPTIONS + ["feature table per format taken from docs/formats.rst and the property text (Driver/C06.lean `carries`)",
+                                 "histories: every ECU named by a step is in the ECU list of the matrix when the file is written (add_ecu before, or update_ecu_list "
+                                 "after the step) for ARXML, XLS and KCD, whose files describe receivers and senders per listed ECU (KCD: a Consumer refers to the Node element "
+                                 "of a listed ECU); DBC, DBF, JSON and SYM are also given ECUs that are named by a signal or frame only",
+                                 "histories, origin `same` (second round trip): not for SYM matrices with a multiplexer (the SYM reader repeats the static signals per "
+                                 "group, the judge addresses the signals of a frame by name); origin `dbc` not for DBF matrices that use an identifier number in both "
+                                 "formats (finding of the strengthening round: the references of a DBF file carry the number without the format)"]
 TRUSTED = c06.TRUSTED
 CORRESPONDENCE = "type words and re-read signal types == Model/Fields.lean kernels; features compared by the Lean Spec table"
+
+D = decimal.Decimal
+FRESH_ECUS = ["Logger", "Tester", "Node_7", "Cluster2", "Rx", "HMI"]
+# formats whose file lists receivers / senders under the ECUs of the matrix's ECU list: an ECU that is named by a signal or a frame but
+# not (yet) in that list has no place in the file (see ASSUMPTIONS)
+NEEDS_ECU_LIST = ("arxml", "xls", "kcd")
 
 
 def gen(rng, tier, shard, nshards):
     for case in c06.gen(rng, tier, shard, nshards, rich=True):
         yield case
+    total = {"quick": 1000, "thorough": 8000}[tier] // nshards + 1
+    for _ in range(total // 3 + 1):
+        for case in gen_hist(rng):
+            yield case
+
+
+# ---------------------------------------------------------------------------------------------
+# matrices with a history
+# ---------------------------------------------------------------------------------------------
+STEP_KINDS = (["add_frame_receiver"] * 3 + ["sig.add_receiver"] * 3 + ["add_signal_receiver", "del_signal_receiver"] + ["sig.del_receiver"] * 2
+              + ["add_frame_transmitter", "frame.add_transmitter", "del_frame_transmitter", "frame.del_transmitter"]
+              + ["rename_ecu"] * 2 + ["del_ecu", "add_ecu", "update_ecu_list", "update_receiver"] + ["late"] * 2
+              + ["rescale", "unit", "add_values"] + ["dump"] * 2 + ["deepcopy"])
+
+
+def gen_hist(rng):
+    fmt = rng.choice(R.FORMATS)
+    wn, rn = "lsb", "lsb"
+    if fmt == "xls":
+        wn = rng.choice(R.NOTATIONS)
+        rn = wn
+    if fmt == "arxml" and rng.random() < 0.3:
+        wn = "3.2.3"
+    desc = R.gen_case_matrix(rng, fmt, True)
+    c06.plain_signals(rng, desc, fmt)
+    if rng.random() < 0.3:
+        c06.long_names(rng, desc, fmt)
+    hist = gen_history(rng, desc, fmt)
+    for f in desc["frames"]:
+        yield {"op": "frame", "c": {"fmt": fmt, "wn": wn, "rn": rn, "m": desc, "fid": f["id"], "ext": f["ext"], "lvl": "full", "via": "bytes", "hist": hist}}
+        if hist["origin"] == "same":
+            # the original is what the reader of the format made of the generated matrix (the SYM multiplexer has another name there,
+            # a format without types has its own): the frame is compared with its second round trip, the signals are not addressed one by one
+            continue
+        for s in f["signals"]:
+            yield {"op": "sig", "c": {"fmt": fmt, "wn": wn, "rn": rn, "m": desc, "fid": f["id"], "ext": f["ext"], "sname": s["name"],
+                                      "sig": [s["name"], s["start"], s["size"], s["little"], s["signed"], s["float"]],
+                                      "x": fmt in ("dbc", "dbf", "sym", "kcd", "json"), "lvl": "full", "via": "bytes", "hist": hist}}
+
+
+def gen_history(rng, desc, fmt):
+    """{"origin": built | bare | dbc | same, "steps": [[kind, arguments ...], ...]}.  The generator follows the senders, receivers and the ECU
+    list through the steps only to stay inside the envelope of the format (ARXML: no ECU both sends and receives a frame; ARXML/XLS: the
+    ECUs named are listed when the file is written); what the matrix looks like after the steps is observed, not predicted."""
+    frames = desc["frames"]
+    origins = ["built", "built", "bare", "dbc", "dbc", "dbc", "same"]
+    if fmt == "sym" and any(s["mux"] is not None for f in frames for s in f["signals"]):
+        # the SYM reader repeats the static signals of a multiplexed message in every group (by design, see ASSUMPTIONS): the frame it
+        # returns has several signals of one name, and the judge addresses the signals of a frame by their names
+        origins = [o for o in origins if o != "same"]
+    if fmt == "dbf" and any(f["id"] == g["id"] and f["ext"] != g["ext"] for f in frames for g in frames):
+        # kept out of the generated stream for now (genuine defect of the unchanged code, reported by the strengthening round): the matrix the
+        # DBC reader returns has signal attributes (GenSigStartValue); the DBF writer refers to their frame by the identifier number alone
+        # (`2047,S,g2_1,...` for standard and extended alike), dbf.load looks the number up in both formats, finds the other frame first and
+        # raises AttributeError ('NoneType' object has no attribute 'add_attribute')
+        origins = [o for o in origins if o != "dbc"]
+    origin = rng.choice(origins)
+    listed = list(desc["ecus"])
+    tx = [list(f["transmitters"]) for f in frames]
+    rx = [{s["name"]: list(s["receivers"]) for s in f["signals"]} for f in frames]
+    steps = []
+
+    def fkey(i):
+        return [frames[i]["id"], frames[i]["ext"]]
+
+    def receivers_of(i):
+        return {e for l in rx[i].values() for e in l}
+
+    def pick_ecu(i, role):
+        """an ECU for frame i in the given role: mostly a listed one, sometimes a new name (listed first, later, or - where the format does not
+        need the list - never)"""
+        avoid = set(tx[i]) if (role == "rx" and fmt == "arxml") else receivers_of(i) if (role == "tx" and fmt == "arxml") else set()
+        cands = [e for e in listed if e not in avoid]
+        if origin == "same" and fmt in NEEDS_ECU_LIST:
+            # the reader of the format under test made the ECU list: it has the ECUs that send or receive something, others may be gone
+            used = {x for j in range(len(frames)) for x in tx[j]} | {x for j in range(len(frames)) for x in receivers_of(j)}
+            cands = [e for e in cands if e in used]
+        if cands and rng.random() < 0.75:
+            return rng.choice(cands), None
+        new = [e for e in FRESH_ECUS if e not in listed and e not in avoid and e not in receivers_of(i) and e not in tx[i]]
+        if not new:
+            return (rng.choice(cands), None) if cands else (None, None)
+        e = rng.choice(new)
+        how = rng.choice(["add_ecu", "update_ecu_list", "update_ecu_list"] if fmt in NEEDS_ECU_LIST else ["add_ecu", "update_ecu_list", "unlisted"])
+        if how == "add_ecu":
+            steps.append(["add_ecu", e])
+            listed.append(e)
+        return e, how
+
+    def listed_later(e, how):
+        if how == "update_ecu_list":
+            steps.append(["update_ecu_list"])
+            for j in range(len(frames)):
+                for x in tx[j] + sorted(receivers_of(j)):
+                    if x not in listed:
+                        listed.append(x)
+
+    for _ in range(rng.choice([1, 1, 2, 2, 3, 4])):
+        kind = rng.choice(STEP_KINDS)
+        i = rng.randrange(len(frames))
+        f = frames[i]
+        names = [s["name"] for s in f["signals"]]
+        if kind == "add_frame_receiver":
+            e, how = pick_ecu(i, "rx")
+            if e is None:
+                continue
+            steps.append([kind, fkey(i), e])
+            for n in names:
+                if e not in rx[i][n]:
+                    rx[i][n].append(e)
+            listed_later(e, how)
+        elif kind in ("sig.add_receiver", "add_signal_receiver"):
+            e, how = pick_ecu(i, "rx")
+            if e is None:
+                continue
+            n = rng.choice(names)
+            steps.append([kind, fkey(i), n, e])
+            if e not in rx[i][n]:
+                rx[i][n].append(e)
+            listed_later(e, how)
+        elif kind in ("sig.del_receiver", "del_signal_receiver"):
+            have = [(n, e) for n in names for e in rx[i][n]]
+            if not have:
+                continue
+            n, e = rng.choice(have)
+            steps.append([kind, fkey(i), n, e])
+            rx[i][n].remove(e)
+        elif kind in ("add_frame_transmitter", "frame.add_transmitter"):
+            e, how = pick_ecu(i, "tx")
+            if e is None:
+                continue
+            steps.append([kind, fkey(i), e])
+            if e not in tx[i]:
+                tx[i].append(e)
+            listed_later(e, how)
+        elif kind in ("del_frame_transmitter", "frame.del_transmitter"):
+            if not tx[i]:
+                continue
+            e = rng.choice(tx[i])
+            steps.append([kind, fkey(i), e])
+            tx[i].remove(e)
+        elif kind == "rename_ecu":
+            new = [e for e in FRESH_ECUS if e not in listed and not any(e in tx[j] or e in receivers_of(j) for j in range(len(frames)))]
+            if not listed or not new:
+                continue
+            old, e = rng.choice(listed), rng.choice(new)
+            steps.append([kind, old, e])
+            listed[listed.index(old)] = e
+            for j in range(len(frames)):
+                tx[j] = [e if x == old else x for x in tx[j]]
+                for n in rx[j]:
+                    rx[j][n] = [e if x == old else x for x in rx[j][n]]
+        elif kind == "del_ecu":
+            if not listed:
+                continue
+            old = rng.choice(listed)
+            steps.append([kind, old])
+            listed.remove(old)
+            for j in range(len(frames)):
+                tx[j] = [x for x in tx[j] if x != old]
+                for n in rx[j]:
+                    rx[j][n] = [x for x in rx[j][n] if x != old]
+        elif kind == "add_ecu":
+            new = [e for e in FRESH_ECUS if e not in listed]
+            if new:
+                e = rng.choice(new)
+                steps.append([kind, e])
+                listed.append(e)
+        elif kind == "update_ecu_list":
+            listed_later(None, "update_ecu_list")
+        elif kind == "update_receiver":
+            steps.append([kind, fkey(i)])
+        elif kind == "late":
+            # the frame had its receivers collected when some of its signals were not there yet
+            if len(names) < 2:
+                continue
+            steps.append([kind, fkey(i), sorted(rng.sample(names, rng.randint(1, len(names) - 1)))])
+        elif kind in ("rescale", "unit", "add_values"):
+            cands = [s for s in f["signals"] if s["mux"] != "Multiplexor" and not (kind == "add_values" and s["float"])]
+            if not cands:
+                continue
+            s = rng.choice(cands)
+            if kind == "rescale":
+                steps.append([kind, fkey(i), s["name"], rng.choice(R.FACTORS12), rng.choice(R.OFFSETS12)])
+            elif kind == "unit":
+                steps.append([kind, fkey(i), s["name"], rng.choice(["", "V", "km/h", "degC", "rounds per min.", "%"])])
+            else:
+                lo, hi = (-(1 << (s["size"] - 1)), (1 << (s["size"] - 1)) - 1) if s["signed"] else (0, (1 << s["size"]) - 1)
+                k = rng.choice([lo, hi, rng.randint(max(lo, -8), min(hi, 300))])
+                if abs(k) < (1 << 53):
+                    steps.append([kind, fkey(i), s["name"], k, "Late%d" % len(steps)])
+        elif kind == "dump":
+            steps.append([kind, rng.choice([fmt, fmt, "dbc", "json"])])
+        elif kind == "deepcopy":
+            steps.append([kind])
+    return {"origin": origin, "steps": steps}
+
+
+def _options(fmt, wn, rn):
+    wopts, ropts = {}, {}
+    if fmt == "json":
+        wopts = {"jsonExportAll": True, "jsonMotorolaBitFormat": wn}
+    if fmt == "xls":
+        wopts = {"xlsMotorolaBitFormat": wn}
+        ropts = {"xlsMotorolaBitFormat": rn}
+    if fmt == "arxml" and wn == "3.2.3":
+        wopts = {"arVersion": "3.2.3"}
+    return wopts, ropts
+
+
+def _first(dbs):
+    return list(dbs.values())[0] if isinstance(dbs, dict) else dbs
+
+
+def _frame(db, key):
+    for f in db.frames:
+        if int(f.arbitration_id.id) == key[0] and bool(f.arbitration_id.extended) == key[1]:
+            return f
+    return None
+
+
+def apply_step(db, st, fmt, wopts):
+    """one call of the public API on the matrix (a step whose frame or signal is not there - the reader of the origin named it otherwise -
+    does nothing); returns the matrix to go on with"""
+    import canmatrix
+    from lib import matrices as M
+    kind = st[0]
+    if kind == "deepcopy":
+        return copy.deepcopy(db)
+    if kind == "dump":
+        M.export_bytes(db, st[1], **(wopts if st[1] == fmt else {"jsonExportAll": True} if st[1] == "json" else {}))
+        return db
+    if kind == "rename_ecu":
+        db.rename_ecu(st[1], st[2])
+        return db
+    if kind == "del_ecu":
+        db.del_ecu(st[1])
+        return db
+    if kind == "add_ecu":
+        db.add_ecu(canmatrix.Ecu(st[1]))
+        return db
+    if kind == "update_ecu_list":
+        db.update_ecu_list()
+        return db
+    fr = _frame(db, st[1])
+    if fr is None:
+        return db
+    if kind == "add_frame_receiver":
+        db.add_frame_receiver(fr.name, st[2])
+    elif kind == "add_frame_transmitter":
+        db.add_frame_transmitter(fr.name, st[2])
+    elif kind == "del_frame_transmitter":
+        db.del_frame_transmitter(fr.name, st[2])
+    elif kind == "frame.add_transmitter":
+        fr.add_transmitter(st[2])
+    elif kind == "frame.del_transmitter":
+        fr.del_transmitter(st[2])
+    elif kind == "update_receiver":
+        fr.update_receiver()
+    elif kind == "late":
+        late = [s for s in fr.signals if s.name in st[2]]
+        if late and len(late) < len(fr.signals):
+            for s in late:
+                fr.signals.remove(s)
+            fr.update_receiver()            # the state of the frame before the signals came
+            for s in late:
+                fr.add_signal(s)
+    else:
+        sg = fr.signal_by_name(st[2])
+        if sg is None:
+            return db
+        if kind == "sig.add_receiver":
+            sg.add_receiver(st[3])
+        elif kind == "sig.del_receiver":
+            sg.del_receiver(st[3])
+        elif kind == "add_signal_receiver":
+            db.add_signal_receiver(fr.name, sg.name, st[3])
+        elif kind == "del_signal_receiver":
+            db.del_signal_receiver(fr.name, sg.name, st[3])
+        elif kind == "rescale":
+            sg.factor = D(st[3])
+            sg.offset = D(st[4])
+        elif kind == "unit":
+            sg.unit = st[3]
+        elif kind == "add_values":
+            sg.add_values(st[3], st[4])
+        else:
+            raise ValueError("unknown step " + kind)
+    return db
+
+
+def state_of(db):
+    """what is behind in the matrix handed to the writer (for the distribution in the evidence file)"""
+    out = set()
+    listed = {e.name for e in db.ecus}
+    for f in db.frames:
+        of_signals = {r for s in f.signals for r in s.receivers}
+        if not f.receivers and of_signals:
+            out.add("frame.receivers-empty")
+        elif of_signals - set(f.receivers):
+            out.add("frame.receivers-lacks-a-signal-receiver")
+        if set(f.receivers) - of_signals:
+            out.add("frame.receivers-has-a-former-receiver")
+        if (of_signals | set(f.transmitters)) - listed:
+            out.add("ecu-not-listed")
+    return sorted(out)
+
+
+_hist_cache = {}
+
+
+def run_hist(desc, fmt, wn, rn, hist):
+    """as roundtrip.run for a matrix with a history: origin, steps, description of the original (before the export), export, import"""
+    from lib import matrices as M
+    key = json.dumps([desc, fmt, wn, rn, hist], sort_keys=True)
+    if key in _hist_cache:
+        return _hist_cache[key]
+    wopts, ropts = _options(fmt, wn, rn)
+    res = {"exc": None}
+    try:
+        with contextlib.redirect_stdout(io.StringIO()):
+            db = M.build(desc, update=hist["origin"] != "bare")
+            if hist["origin"] == "dbc":
+                db = _first(M.import_bytes(M.export_bytes(db, "dbc"), "dbc")[0])
+            elif hist["origin"] == "same":
+                db = _first(M.import_bytes(M.export_bytes(db, fmt, **wopts), fmt, **ropts)[0])
+            for st in hist["steps"]:
+                db = apply_step(db, st, fmt, wopts)
+        res["state"] = state_of(db)
+        res["orig"] = M.normal_form(db, "full")
+        data = M.export_bytes(db, fmt, **wopts)
+        res["stored"] = R.extract_positions(fmt, data)
+        dbs, _ = M.import_bytes(data, fmt, **ropts)
+        res["got"] = M.normal_form(_first(dbs), "full")
+    except Exception as e:  # noqa
+        res["exc"] = type(e).__name__ + ": " + str(e)[:200]
+    if len(_hist_cache) > 16:
+        _hist_cache.clear()
+    _hist_cache[key] = res
+    return res
+
+
+def observe(case):
+    c = case["c"]
+    if case["op"] == "bus" or not c.get("hist"):
+        return c06.observe(case)
+    r = run_hist(c["m"], c["fmt"], c["wn"], c["rn"], c["hist"])
+    # from here on as c06.observe
+    if r["exc"]:
+        if case["op"] == "frame":
+            return {"exc": r["exc"], "got": None, "orig": None}
+        return {"exc": r["exc"], "emit": None, "back": None, "type": None}
+    gf = R.find_frame(r["got"], c["fid"], c["ext"])
+    of = R.find_frame(r["orig"], c["fid"], c["ext"])
+    if of and c["hist"]["origin"] != "built":
+        # the original may come from a reader: `no unit` is None there and `no sender` the placeholder Vector__XXX (the judge reads the
+        # re-read frame the same way)
+        # (DBF carries the first sender only: a placeholder in that place is `no first sender`)
+        of = dict(of, transmitters=([] if c["fmt"] == "dbf" and of["transmitters"][:1] == ["Vector__XXX"] else [t for t in of["transmitters"] if t != "Vector__XXX"]),
+                  signals=[dict(s, unit=s["unit"] if s["unit"] is not None else "") for s in of["signals"]])
+    if case["op"] == "frame":
+        return {"got": gf, "orig": of, "state": r["state"]}
+    is_mux = any(s["name"] == c["sname"] and s["mux"] == "Multiplexor" for s in of["signals"])
+    gs = R.find_signal(gf, c["sname"], c["fmt"], is_mux, of["name"]) if gf else None
+    stored = r["stored"].get((c["fid"], c["ext"], c["sname"]))
+    if stored is None and c["fmt"] == "sym" and is_mux:
+        stored = r["stored"].get((c["fid"], c["ext"], "<mux>"))
+    if stored is None and c["fmt"] == "dbc" and len(c["sname"]) > 32:
+        cut = [s["name"] for s in of["signals"] if s["name"][:32] == c["sname"][:32]]
+        stored = r["stored"].get((c["fid"], c["ext"], c["sname"][:32] + (str(cut.index(c["sname"])) if len(cut) > 1 else "")))
+    return {"emit": stored if c.get("x") else None,
+            "back": [gs["start"], gs["size"], gs["little"]] if gs else None,
+            "type": [None if gs["float"] else gs["signed"], gs["float"]] if (gs and c["fmt"] != "xls") else None}
+
+
+def shrink_candidates(case):
+    """a failing case with a history: the same case with one step less, then with a hand-made origin"""
+    c = case.get("c", {})
+    h = c.get("hist")
+    if not h:
+        return
+    for k in range(len(h["steps"])):
+        yield {"op": case["op"], "c": dict(c, hist={"origin": h["origin"], "steps": h["steps"][:k] + h["steps"][k + 1:]})}
+    if h["origin"] != "built":
+        yield {"op": case["op"], "c": dict(c, hist={"origin": "built", "steps": h["steps"]})}
 
 
 neighbours = c06.neighbours
-observe = c06.observe
 project = c06.project
-classify = c06.classify
+
+
+def classify(case, impl, spec):
+    cid = c06.classify(case, impl, spec)
+    c = case.get("c", {})
+    h = c.get("hist") if case["op"] != "bus" else None
+    if cid is None and h and case["op"] == "frame" and c["fmt"] == "sym" and spec and spec.startswith("fail: value table of "):
+        # the open finding C07-sym-enum-name-collision reached through a history: the signal shares its name with a signal of another
+        # frame and a step gave one of them another value table
+        name = spec[len("fail: value table of "):].split(" ")[0]
+        holders = [f["id"] for f in c["m"]["frames"] for s in f["signals"] if s["name"] == name]
+        if len(holders) > 1 and any(st[0] == "add_values" and st[2] == name for st in h["steps"]):
+            return "C07-sym-enum-name-collision"
+    return cid
 
 
 def features(case, impl):
     for f in c06.features(case, impl):
         yield f
+    h = case["c"].get("hist") if case["op"] != "bus" else None
+    if h and case["op"] == "frame":
+        fmt = case["c"]["fmt"]
+        yield "hist:origin=%s/%s" % (h["origin"], fmt)
+        yield "hist:steps=%d" % len(h["steps"])
+        for kind in sorted({st[0] for st in h["steps"]}):
+            yield "hist:step=%s/%s" % (kind, fmt)
+        for st in impl.get("state") or []:
+            yield "hist:state=%s/%s" % (st, fmt)
 
 
 def nontrivial(case, impl):
